@@ -126,8 +126,8 @@ def correspond(ctx):
                 prs = Presentation(); slide = prs.slides.add_slide(prs.slide_layouts[6])
             if kind == "cat":
                 ns = None
-                if ("PIE" in ct.name or "DOUGHNUT" in ct.name) and rng.random() < 0.5:
-                    ns = 1
+                if "PIE" in ct.name or "DOUGHNUT" in ct.name:
+                    ns = rng.choice([1, 1, 2, 3])   # the property requires at least one series for pie types
                 spec, cd = lab.gen_cat_data(rng, n_series=ns, big=(not big_done and rep == 0))
                 big_done = True
             else:
